@@ -132,6 +132,11 @@ def section_text_to_flat_json(lines, idxline, func_subsets_text_to_flat_json):
             idxline, data_all_subsets = func_subsets_text_to_flat_json(lines, idxline)
             section_data.append(data_all_subsets)
             continue
+        if not line.strip():
+            # The template data of a message without any subset is rendered as an empty line
+            section_data.append([])
+            idxline += 1
+            continue
         parameter_name, value = line.split(' = ')
         section_data.append(ast.literal_eval(value))
         idxline += 1
